@@ -251,7 +251,12 @@ def reflect_cases(raw, seed):
             g3 = json.loads(json.dumps(g))
             g3["opts"]["zeroPrefixed"] = True
             out.append(g3)
-    out.sort(key=lambda g: decl_key(g["decl"]) + str(g["opts"]["enumNums"]) + str(g["opts"].get("zeroPrefixed")))
+        if d["kind"] == "enum":
+            # ... and over an enum whose first option carries a description and the others none
+            g4 = json.loads(json.dumps(g))
+            g4["opts"]["optDesc"] = True
+            out.append(g4)
+    out.sort(key=lambda g: decl_key(g["decl"]) + str(g["opts"]["enumNums"]) + str(g["opts"].get("zeroPrefixed")) + str(g["opts"].get("optDesc")))
     return out
 
 
